@@ -7,77 +7,102 @@
                     (doubled) semi-axes w, h;  eX e p, eY e p = squared doubled coordinates of p relative to e's centre
    mirror_x / mirror_y = reflection in the vertical / horizontal centre line of the box *)
 From EG Require Import Base.Prelude Model.Geometry Model.Style Model.Circle Model.Ellipse
-  Proofs.Geometry Proofs.Scanline Proofs.Circle Proofs.Ellipse Proofs.Curvefacts.
+  Proofs.Geometry Proofs.Scanline Proofs.Circle Proofs.Ellipse Proofs.Curvefacts Proofs.Circlestyled Proofs.Ellipsestyled Proofs.Circlefits.
+
+(* Range: circle_mok c = top-left within +-2^29, d <= 2^15; probe_ok c p = every intermediate of contains(p) fits its Rust
+   type (exact condition, see C05_circle_probe_ok_exact); ellipse_mok e = within +-2^29, w*h <= 2^31; eprobe_ok likewise.
+   In that range the unbounded model is the machine computation; outside it contains() panics (overflow checks) or wraps. *)
 
 (* half-pixel band (in doubled units: ideal radius d, band d-1 .. d+1); includes the diameter <= 4 correction *)
 Theorem C18_circle_band : forall c p,
-  1 <= c_d c ->
+  circle_mok c -> probe_ok c p -> 1 <= c_d c ->
   (circle_contains c p = true -> cdist2 c p < (c_d c + 1) * (c_d c + 1)) /\
   (cdist2 c p < (c_d c - 1) * (c_d c - 1) -> circle_contains c p = true).
-Proof. exact circle_band. Qed.
+Proof. exact circle_band_m. Qed.
 
 Theorem C18_ellipse_band : forall e p,
-  1 <= sw (e_sz e) -> 1 <= sh (e_sz e) ->
+  ellipse_mok e -> eprobe_ok e p -> 1 <= sw (e_sz e) -> 1 <= sh (e_sz e) ->
   (ellipse_contains e p = true -> ideal_in (sw (e_sz e) + 1) (sh (e_sz e) + 1) (eX e p) (eY e p)) /\
   (ideal_in (sw (e_sz e) - 1) (sh (e_sz e) - 1) (eX e p) (eY e p) -> ellipse_contains e p = true).
-Proof. exact ellipse_band_contains. Qed.
+Proof. exact ellipse_band_m. Qed.
 
-(* mirror symmetry about both centre lines *)
+(* degenerate sizes accept nothing *)
+Theorem C18_circle_zero_diameter_empty : forall c p, c_d c = 0 -> circle_contains c p = false.
+Proof. exact circle_zero_empty. Qed.
+
+Theorem C18_ellipse_zero_axis_empty : forall e p,
+  ellipse_ok e -> sw (e_sz e) = 0 \/ sh (e_sz e) = 0 -> ellipse_contains e p = false.
+Proof. exact ellipse_contains_degenerate. Qed.
+
+(* mirror symmetry about both centre lines (the mirror image of a fine probe is a fine probe) *)
 Theorem C18_circle_sym_x : forall c p,
-  1 <= c_d c -> circle_contains c (mirror_x (px (c_tl c)) (c_d c) p) = circle_contains c p.
-Proof. exact circle_sym_x. Qed.
+  circle_mok c -> probe_ok c p -> 1 <= c_d c ->
+  probe_ok c (mirror_x (px (c_tl c)) (c_d c) p) /\
+  circle_contains c (mirror_x (px (c_tl c)) (c_d c) p) = circle_contains c p.
+Proof. exact circle_sym_x_m. Qed.
 
 Theorem C18_circle_sym_y : forall c p,
-  1 <= c_d c -> circle_contains c (mirror_y (py (c_tl c)) (c_d c) p) = circle_contains c p.
-Proof. exact circle_sym_y. Qed.
+  circle_mok c -> probe_ok c p -> 1 <= c_d c ->
+  probe_ok c (mirror_y (py (c_tl c)) (c_d c) p) /\
+  circle_contains c (mirror_y (py (c_tl c)) (c_d c) p) = circle_contains c p.
+Proof. exact circle_sym_y_m. Qed.
 
 Theorem C18_ellipse_sym_x : forall e p,
-  1 <= sw (e_sz e) -> 1 <= sh (e_sz e) ->
+  ellipse_mok e -> eprobe_ok e p -> 1 <= sw (e_sz e) -> 1 <= sh (e_sz e) ->
   ellipse_contains e (mirror_x (px (e_tl e)) (sw (e_sz e)) p) = ellipse_contains e p.
-Proof. exact ellipse_sym_x. Qed.
+Proof. exact ellipse_sym_x_m. Qed.
 
 Theorem C18_ellipse_sym_y : forall e p,
-  1 <= sw (e_sz e) -> 1 <= sh (e_sz e) ->
+  ellipse_mok e -> eprobe_ok e p -> 1 <= sw (e_sz e) -> 1 <= sh (e_sz e) ->
   ellipse_contains e (mirror_y (py (e_tl e)) (sh (e_sz e)) p) = ellipse_contains e p.
-Proof. exact ellipse_sym_y. Qed.
+Proof. exact ellipse_sym_y_m. Qed.
 
-(* every row and every column is one contiguous run *)
+(* every row and every column is one contiguous run (points between two accepted ones are fine probes and accepted) *)
 Theorem C18_circle_row_contiguous : forall c y x1 x2 x3,
+  circle_mok c -> probe_ok c (P x1 y) -> probe_ok c (P x3 y) ->
   x1 <= x2 <= x3 -> circle_contains c (P x1 y) = true -> circle_contains c (P x3 y) = true ->
-  circle_contains c (P x2 y) = true.
-Proof. exact circle_row_contiguous. Qed.
+  probe_ok c (P x2 y) /\ circle_contains c (P x2 y) = true.
+Proof. exact circle_row_contiguous_m. Qed.
 
 Theorem C18_circle_col_contiguous : forall c x y1 y2 y3,
+  circle_mok c -> probe_ok c (P x y1) -> probe_ok c (P x y3) ->
   y1 <= y2 <= y3 -> circle_contains c (P x y1) = true -> circle_contains c (P x y3) = true ->
-  circle_contains c (P x y2) = true.
-Proof. exact circle_col_contiguous. Qed.
+  probe_ok c (P x y2) /\ circle_contains c (P x y2) = true.
+Proof. exact circle_col_contiguous_m. Qed.
 
 Theorem C18_ellipse_row_contiguous : forall e y x1 x2 x3,
-  ellipse_ok e -> x1 <= x2 <= x3 -> ellipse_contains e (P x1 y) = true -> ellipse_contains e (P x3 y) = true ->
-  ellipse_contains e (P x2 y) = true.
-Proof. exact ellipse_row_contiguous. Qed.
+  ellipse_mok e -> eprobe_ok e (P x1 y) -> eprobe_ok e (P x3 y) ->
+  x1 <= x2 <= x3 -> ellipse_contains e (P x1 y) = true -> ellipse_contains e (P x3 y) = true ->
+  eprobe_ok e (P x2 y) /\ ellipse_contains e (P x2 y) = true.
+Proof. exact ellipse_row_contiguous_m. Qed.
 
 Theorem C18_ellipse_col_contiguous : forall e x y1 y2 y3,
-  ellipse_ok e -> y1 <= y2 <= y3 -> ellipse_contains e (P x y1) = true -> ellipse_contains e (P x y3) = true ->
-  ellipse_contains e (P x y2) = true.
-Proof. exact ellipse_col_contiguous. Qed.
+  ellipse_mok e -> eprobe_ok e (P x y1) -> eprobe_ok e (P x y3) ->
+  y1 <= y2 <= y3 -> ellipse_contains e (P x y1) = true -> ellipse_contains e (P x y3) = true ->
+  eprobe_ok e (P x y2) /\ ellipse_contains e (P x y2) = true.
+Proof. exact ellipse_col_contiguous_m. Qed.
 
 (* a circle touches all four sides of its bounding box *)
 Theorem C18_circle_touches_box : forall c,
-  circle_ok c -> 1 <= c_d c ->
+  circle_mok c -> 1 <= c_d c ->
   let x0 := px (c_tl c) in let y0 := py (c_tl c) in let d := c_d c in
   (exists x, x0 <= x < x0 + d /\ circle_contains c (P x y0) = true) /\
   (exists x, x0 <= x < x0 + d /\ circle_contains c (P x (y0 + d - 1)) = true) /\
   (exists y, y0 <= y < y0 + d /\ circle_contains c (P x0 y) = true) /\
   (exists y, y0 <= y < y0 + d /\ circle_contains c (P (x0 + d - 1) y) = true).
-Proof. exact circle_touches_box. Qed.
+Proof. exact circle_touches_box_m. Qed.
 
 (* a circle is the ellipse with equal axes: same contains() (threshold correction included), same points() *)
-Theorem C18_circle_eq_ellipse : forall c p, ellipse_contains (circle_as_ellipse c) p = circle_contains c p.
-Proof. exact circle_eq_ellipse. Qed.
+Theorem C18_circle_eq_ellipse : forall c p,
+  circle_mok c -> probe_ok c p -> eprobe_ok (circle_as_ellipse c) p ->
+  ellipse_contains (circle_as_ellipse c) p = circle_contains c p.
+Proof. exact circle_eq_ellipse_m. Qed.
 
-Theorem C18_circle_points_eq_ellipse : forall c, circle_ok c -> ellipse_points (circle_as_ellipse c) = circle_points c.
-Proof. exact circle_points_eq_ellipse. Qed.
+Theorem C18_circle_points_eq_ellipse : forall c, circle_mok c -> ellipse_points (circle_as_ellipse c) = circle_points c.
+Proof. exact circle_points_eq_ellipse_m. Qed.
+
+Theorem C18_circle_as_ellipse_in_range : forall c, circle_mok c -> ellipse_mok (circle_as_ellipse c).
+Proof. exact circle_as_ellipse_mok. Qed.
 
 (* non-vacuity: diameter 4 (corrected threshold 14): (1,0) is accepted (distance^2 = 10), the corner (0,0) is not (18) *)
 Example C18_example :
